@@ -13,6 +13,10 @@ import (
 )
 
 func loadKnown() []KnownFinding {
+	if os.Getenv("VERIF_NO_KNOWN") != "" {
+		// development aid: mutation runs against a repaired scratch tree must not be masked
+		return nil
+	}
 	raw, err := os.ReadFile(filepath.Join(verifDir, "known_findings.json"))
 	if err != nil {
 		return nil
